@@ -49,6 +49,8 @@ def run(ctx):
     # date-time payloads: the zone name written is one whose offset at that instant is the value's (shared with C17)
     from . import c17
     c17._timezone_name(ctx, ctx.model, rule='C06.D4')
+    # XStr payloads: hex digits / one-line standard base64 (XStr.data_to_string, datatypes.py)
+    _zinc.xstr_codec(ctx, 'C06.D2')
 
 
 def _kind(ctx, kind, version):
